@@ -747,7 +747,7 @@ def check_c20(ctx, sched):
             rec = "RecursionError" in txt or "maximum recursion depth" in txt
             m = d.ops[o["op"]]["m"].get("method") if 0 <= o["op"] < len(d.ops) else "?"
             violation("C20", "recursion" if rec else "internal-error",
-                      f"{m.split('/')[-1]}: {err_site(f)}", str(strip_tb(f))[:400], op=o["op"])
+                      err_site(f), f"{m}: " + str(strip_tb(f))[:400], op=o["op"])
         elif f.get("method") == "window/showMessage":
             msg = str(f["params"].get("message"))
             if "recursion" in msg.lower() or any(mk in msg for mk in PARSE_FAIL_MARKERS) \
